@@ -2,6 +2,8 @@ import Infretis.Lemmas.RepexCtr
 import Infretis.Props.C17Runner
 import Infretis.Props.C17Sys
 import Infretis.Props.C17Sched
+import Infretis.Model.SchedDisk
+import Infretis.Lemmas.SchedDiskEx
 /-!
 # C17 — exactly the requested number of moves runs; each result is consumed once
 
@@ -388,9 +390,417 @@ example : let y0 : Sys := { s := blank 3 1 2 5 3 0 [] [] true [], jobs := [] }
 
 /-- the restart file's step counter is the number of completed moves -/
 theorem restart_cstep (s : St) : (persist s).cstep = s.cstep := rfl
+-- AUDIT NOTE (2026-09-30): `restart_cstep` is only about the CONTENT `write_toml` would store for a state; it says
+-- nothing about WHEN the file is written.  Between `loop()` (which does `cstep += 1`) and the end of `treat_output`
+-- the state's counter is one ahead of the completed moves:
+example : let s := blank 3 1 4 0 3 0 [] [] false []
+    (persist (loop s).1).cstep = 1 ∧ (loop s).2 = true := by decide
+-- The clause "the step counter in the restart file equals the number of completed moves" is carried by
+-- `disk_counts_completed_moves` below (write points and the file on disk are part of `Model/SchedDisk.lean`).
 
 example : Shaped [Ev.start ⟨0, 0, false, 0⟩ 0, Ev.initDone, Ev.step 0 .rej [] ⟨0, 0, false, 0⟩] :=
   ⟨[Ev.start ⟨0, 0, false, 0⟩ 0], [Ev.step 0 .rej [] ⟨0, 0, false, 0⟩], rfl, by simp [isStart], by simp [isStep]⟩
+
+/-! ## scheduler() with its file effects and its ways to end (`Model/SchedDisk.lean`)
+
+`Repex.sysStep` has no write points, no death and no `runner.stop()`.  `SchedDisk.dstep` adds them as the
+code has them; `dstep_proj` shows that every step with a counterpart IS that `sysStep` (so the theorems
+above carry over), the driver op `sd-ev` runs `dstep` and the tie compares cstep / jobs in flight /
+the file really on disk / stop() calls with the real `scheduler()` after every event. -/
+section SchedDisk
+open Infretis.SchedDisk
+
+theorem treatPart_ok {d : DSys} {k : Nat} {st : Status} {w} {s2 : St} {job : Job}
+    (h : treatPart d k st w = .ok (s2, job)) :
+    (loop d.y.s).2 = true ∧ d.y.jobs[k]? = some job ∧ d.y.s.cstep < d.y.s.tsteps ∧
+    s2.cstep = d.y.s.cstep + 1 ∧ s2.tsteps = d.y.s.tsteps ∧ s2.workers = d.y.s.workers ∧
+    s2.toinitiate = d.y.s.toinitiate ∧
+    (∃ pns its, treatOutput (loop d.y.s).1 job st w (sortFuel (loop d.y.s).1) = .ok (s2, pns, its)) := by
+  unfold treatPart at h
+  simp only at h
+  have lf := loop_fields d.y.s
+  split at h
+  · simp at h
+  · rename_i hgo
+    simp at hgo
+    obtain ⟨l1, l2, l3, l4, _⟩ := lf
+    obtain ⟨hlt, hc⟩ := l4 hgo
+    split at h
+    · simp at h
+    · rename_i job0 hj
+      split at h
+      · simp at h
+      · rename_i s2' pns its ht
+        simp at h
+        obtain ⟨rfl, rfl⟩ := h
+        have c2 := ctr_treatOutput ht
+        simp only [ctr, Ctr.mk.injEq] at c2
+        obtain ⟨c21, c22, c23, c24⟩ := c2
+        exact ⟨hgo, hj, hlt, by omega, by omega, by omega, by omega, pns, its, ht⟩
+
+/-- a step of the scheduler-with-files system that has a counterpart is that `sysStep` -/
+theorem dstep_proj {d d' : DSys} {e : DEv} {ev : Ev} (h : dstep d e = .ok d') (he : toEv e = some ev) :
+    sysStep d.y ev = .ok d'.y := by
+  unfold dstep at h
+  split at h
+  · simp at h
+  · cases e with
+    | start o k =>
+      simp only [toEv, Option.some.injEq] at he; subst he
+      simp only at h
+      split at h
+      · simp at h
+      · rename_i y' hy; simp at h; subst h; exact hy
+    | initDone =>
+      simp only [toEv, Option.some.injEq] at he; subst he
+      simp only at h
+      split at h
+      · simp at h
+      · rename_i y' hy; simp at h; subst h; exact hy
+    | step k st w o =>
+      simp only [toEv, Option.some.injEq] at he; subst he
+      simp only at h
+      split at h
+      · simp at h
+      · rename_i s2 job htp
+        obtain ⟨hgo, hj, _, _, _, _, _, pns, its, ht⟩ := treatPart_ok htp
+        unfold sysStep
+        simp only [hgo, hj, ht]
+        simp only [not_true_eq_false, ↓reduceIte]
+        split at h
+        · rename_i hre
+          simp only [hre, ↓reduceIte]
+          split at h
+          · simp at h
+          · rename_i s3 job' ds hp
+            simp at h; subst h
+            simp [hp]
+        · rename_i hre
+          simp only [hre, ↓reduceIte]
+          simp at h; subst h
+          rfl
+    | stepKilled => simp [toEv] at he
+    | unitFails => simp [toEv] at he
+    | killedWaiting => simp [toEv] at he
+    | finish => simp [toEv] at he
+
+/-- file / memory invariant of a life that began at step counter `c0` with `disk0` on disk, after
+    `n` completed moves -/
+structure DInv (c0 : Nat) (disk0 : Option Image) (d : DSys) (n : Nat) : Prop where
+  mem : d.y.s.cstep = c0 + n + (if d.midStep then 1 else 0)
+  file : match d.disk with | some im => im.cstep = c0 + n | none => n = 0
+  mid : d.midStep = true → d.phase = .dead
+  stops : d.stops = (if d.phase = .stopped then 1 else 0)
+  writes : d.writes = n + (if d.phase = .stopped then 1 else 0)
+  nowrite : d.writes = 0 → d.disk = disk0
+  stopfile : d.phase = .stopped → d.disk ≠ none
+
+theorem dinv_step {c0 : Nat} {disk0 : Option Image} {d d' : DSys} {n : Nat} {e : DEv}
+    (hI : DInv c0 disk0 d n) (h : dstep d e = .ok d') : DInv c0 disk0 d' (n + nDone [e]) := by
+  have h0 := h
+  unfold dstep at h
+  split at h
+  · simp at h
+  · rename_i hph
+    have hph : d.phase = .running := by simpa using hph
+    have hmid : d.midStep = false := by
+      cases hm : d.midStep with
+      | false => rfl
+      | true => have := hI.mid hm; rw [hph] at this; cases this
+    have hmem := hI.mem
+    have hfile := hI.file
+    have hst := hI.stops
+    have hwr := hI.writes
+    have hnw := hI.nowrite
+    rw [hmid] at hmem
+    rw [hph] at hst hwr
+    simp at hmem hst hwr
+    cases e with
+    | start o k =>
+      simp only at h
+      split at h
+      · simp at h
+      · rename_i y' hy
+        simp at h; subst h
+        have ef := start_effect hy
+        refine ⟨?_, ?_, ?_, ?_, ?_, ?_, ?_⟩ <;> simp [nDone, hmid, hph, hst, hwr] <;> first | omega | skip
+        · intro hw; exact hnw (by omega)
+    | initDone =>
+      simp only at h
+      split at h
+      · simp at h
+      · rename_i y' hy
+        simp at h; subst h
+        have ef := initDone_effect hy
+        refine ⟨?_, ?_, ?_, ?_, ?_, ?_, ?_⟩ <;> simp [nDone, hmid, hph, hst, hwr] <;> first | omega | skip
+        · intro hw; exact hnw (by omega)
+    | step k st w o =>
+      simp only at h
+      split at h
+      · simp at h
+      · rename_i s2 job htp
+        obtain ⟨hgo, hj, hlt, c1, c2, c3, c4, _⟩ := treatPart_ok htp
+        split at h
+        · split at h
+          · simp at h
+          · rename_i s3 job' ds hp
+            have c := ctr_prep hp
+            simp only [ctr, Ctr.mk.injEq] at c
+            simp at h; subst h
+            refine ⟨?_, ?_, ?_, ?_, ?_, ?_, ?_⟩ <;> simp [nDone, hmid, hph, hst, hwr, persist] <;> omega
+        · simp at h; subst h
+          refine ⟨?_, ?_, ?_, ?_, ?_, ?_, ?_⟩ <;> simp [nDone, hmid, hph, hst, hwr, persist] <;> omega
+    | stepKilled k st w =>
+      simp only at h
+      split at h
+      · simp at h
+      · rename_i s2 job htp
+        obtain ⟨hgo, hj, hlt, c1, c2, c3, c4, _⟩ := treatPart_ok htp
+        simp at h; subst h
+        refine ⟨?_, ?_, ?_, ?_, ?_, ?_, ?_⟩ <;> simp [nDone, hmid, hst, hwr, persist] <;> omega
+    | unitFails k =>
+      simp only at h
+      have lf := loop_fields d.y.s
+      split at h
+      · simp at h
+      · rename_i hgo
+        simp at hgo
+        have hc := (lf.2.2.2.1 hgo).2
+        split at h
+        · simp at h
+        · simp at h; subst h
+          refine ⟨?_, ?_, ?_, ?_, ?_, ?_, ?_⟩ <;> simp [nDone, hst, hwr] <;> first | omega | skip
+          · intro hw; exact hnw (by omega)
+    | killedWaiting =>
+      simp only at h
+      have lf := loop_fields d.y.s
+      split at h
+      · simp at h
+      · rename_i hgo
+        simp at hgo
+        have hc := (lf.2.2.2.1 hgo).2
+        simp at h; subst h
+        refine ⟨?_, ?_, ?_, ?_, ?_, ?_, ?_⟩ <;> simp [nDone, hst, hwr] <;> first | omega | skip
+        · intro hw; exact hnw (by omega)
+    | finish =>
+      simp only at h
+      have lf := loop_fields d.y.s
+      split at h
+      · simp at h
+      · rename_i hgo
+        simp at hgo
+        have hc := (lf.2.2.2.2 hgo).2
+        simp at h; subst h
+        refine ⟨?_, ?_, ?_, ?_, ?_, ?_, ?_⟩ <;> simp [nDone, hmid, hst, hwr, persist, hc] <;> omega
+
+theorem dinv_run {c0 : Nat} {disk0 : Option Image} : ∀ (evs : List DEv) {d d' : DSys} {n : Nat},
+    DInv c0 disk0 d n → drun d evs = .ok d' → DInv c0 disk0 d' (n + nDone evs) := by
+  intro evs
+  induction evs with
+  | nil => intro d d' n hI h; simp [drun] at h; subst h; simpa [nDone] using hI
+  | cons e t ih =>
+    intro d d' n hI h
+    simp only [drun] at h
+    cases h1 : dstep d e with
+    | error er => rw [h1] at h; simp at h
+    | ok d1 =>
+      rw [h1] at h
+      have := ih (dinv_step hI h1) h
+      have e2 : n + nDone [e] + nDone t = n + nDone (e :: t) := by
+        cases e <;> simp [nDone] <;> omega
+      rw [e2] at this
+      exact this
+
+theorem dinv_begin (s : St) (disk0 : Option Image) (h0 : ∀ im, disk0 = some im → im.cstep = s.cstep) :
+    DInv s.cstep disk0 (begin s disk0) 0 := by
+  refine ⟨by simp [begin], ?_, by simp [begin], by simp [begin], by simp [begin], by simp [begin], by simp [begin]⟩
+  simp only [begin]
+  cases hd : disk0 with
+  | none => simp
+  | some im => simpa using h0 im hd
+
+/-- **The step counter in the restart file equals the number of completed moves — at every point of
+    every life, however it ends.**  A life begins at step counter `cstep₀` with `disk0` on disk (no
+    file, or the file the state was loaded from).  After ANY history of the scheduler-with-files
+    system (any outcomes, any completion order; cut short by a failing unit, a kill while waiting,
+    a kill after a move, or finished): the file on disk — if there is one — has
+    `cstep = cstep₀ + completed moves`, and there is none only if no move was completed and none was
+    there; `write_toml` ran once per completed move (plus once at the regular end); the counter in
+    MEMORY is one ahead exactly when `loop()` had counted a move that was never completed. -/
+theorem disk_counts_completed_moves (s : St) (disk0 : Option Image) (evs : List DEv) (d : DSys)
+    (h0 : ∀ im, disk0 = some im → im.cstep = s.cstep) (hr : drun (begin s disk0) evs = .ok d) :
+    (∀ im, d.disk = some im → im.cstep = s.cstep + nDone evs) ∧
+    (d.disk = none → nDone evs = 0 ∧ disk0 = none) ∧
+    d.writes = nDone evs + (if d.phase = .stopped then 1 else 0) ∧
+    d.y.s.cstep = s.cstep + nDone evs + (if d.midStep then 1 else 0) ∧
+    (d.midStep = true → d.phase = .dead) := by
+  have hI := dinv_run evs (dinv_begin s disk0 h0) hr
+  simp only [Nat.zero_add] at hI
+  refine ⟨?_, ?_, hI.writes, hI.mem, hI.mid⟩
+  · intro im hd
+    have := hI.file
+    rw [hd] at this
+    exact this
+  · intro hd
+    have := hI.file
+    rw [hd] at this
+    simp only at this
+    refine ⟨this, ?_⟩
+    have hw := hI.writes
+    have hns : d.phase ≠ .stopped := fun hs => hI.stopfile hs hd
+    have := hI.nowrite (by rw [hw, this]; simp [hns])
+    rw [hd] at this
+    exact this.symm
+
+/-- **A unit's exception ends the run — it is neither swallowed nor survived.**  When
+    `future.result()` re-raises a unit's exception, `scheduler()` is dead: the step counter in
+    memory has counted the move (`+1`) but the file on disk is untouched (it still says the number
+    of completed moves), nothing was written, `runner.stop()` was NOT called, and no event of the
+    system can follow (no further move is run, recorded or counted). -/
+theorem unit_exception_aborts {d d' : DSys} {k : Nat} (h : dstep d (.unitFails k) = .ok d') :
+    d'.phase = .dead ∧ d'.midStep = true ∧ d'.disk = d.disk ∧ d'.writes = d.writes ∧ d'.stops = d.stops ∧
+    d'.y.s.cstep = d.y.s.cstep + 1 ∧ d'.y.jobs.length + 1 = d.y.jobs.length ∧
+    (∀ e, dstep d' e = .error .value) ∧ (∀ evs d'', drun d' evs = .ok d'' → evs = [] ∧ d'' = d') := by
+  unfold dstep at h
+  split at h
+  · simp at h
+  · simp only at h
+    have lf := loop_fields d.y.s
+    split at h
+    · simp at h
+    · rename_i hgo
+      simp at hgo
+      have hc := (lf.2.2.2.1 hgo).2
+      split at h
+      · simp at h
+      · rename_i job hj
+        have hk : k < d.y.jobs.length := by
+          by_contra hn
+          rw [List.getElem?_eq_none (by omega)] at hj
+          simp at hj
+        simp at h
+        have hph' : d'.phase = .dead := by rw [← h]
+        have hdead : ∀ e, dstep d' e = .error .value := by
+          intro e; unfold dstep; simp [hph']
+        subst h
+        refine ⟨rfl, rfl, rfl, rfl, rfl, hc, ?_, hdead, ?_⟩
+        · simp [List.length_eraseIdx, hk]; omega
+        · intro evs d'' hr
+          cases evs with
+          | nil => simp [drun] at hr; exact ⟨rfl, hr.symm⟩
+          | cons e t => simp [drun, hdead e] at hr
+
+theorem drun_append_ok : ∀ {a : List DEv} {b : List DEv} {d d' : DSys}, drun d (a ++ b) = .ok d' →
+    ∃ d1, drun d a = .ok d1 ∧ drun d1 b = .ok d'
+  | [], b, d, d', h => ⟨d, rfl, h⟩
+  | e :: t, b, d, d', h => by
+    simp only [List.cons_append, drun] at h ⊢
+    cases h1 : dstep d e with
+    | error er => rw [h1] at h; simp at h
+    | ok d1 => rw [h1] at h; exact drun_append_ok h
+
+/-- histories without an early end project to `Repex.run` -/
+theorem drun_proj : ∀ (evs : List DEv) {d d' : DSys}, (∀ e ∈ evs, (toEv e).isSome = true) →
+    drun d evs = .ok d' → run d.y (evs.filterMap toEv) = .ok d'.y ∧ nSteps (evs.filterMap toEv) = nDone evs := by
+  intro evs
+  induction evs with
+  | nil => intro d d' _ h; simp [drun] at h; subst h; simp [run, nSteps, nDone]
+  | cons e t ih =>
+    intro d d' hp h
+    simp only [drun] at h
+    cases h1 : dstep d e with
+    | error er => rw [h1] at h; simp at h
+    | ok d1 =>
+      rw [h1] at h
+      have hs := hp e (by simp)
+      obtain ⟨ev, hev⟩ := Option.isSome_iff_exists.1 hs
+      have := dstep_proj h1 hev
+      obtain ⟨r1, r2⟩ := ih (fun e he => hp e (by simp [he])) h
+      simp only [List.filterMap_cons, hev, run, this]
+      refine ⟨r1, ?_⟩
+      cases e <;> simp [toEv] at hev <;> subst hev <;> simp [nSteps, nDone, r2]
+
+/-- **A finished run: the FILE says `steps`, and `runner.stop()` ran once.**  A life from a fresh
+    state with `cstep₀ ≤ steps` whose history is a scheduler history (no early end) followed by the
+    regular end: exactly `steps − cstep₀` moves were completed, no job is in flight, the restart
+    file on disk has `cstep = steps`, it was written once per move plus once at the end, and
+    `runner.stop()` was called exactly once. -/
+theorem finished_file (s : St) (disk0 : Option Image) (evs : List DEv) (d : DSys)
+    (h0 : ∀ im, disk0 = some im → im.cstep = s.cstep) (hf : s.toinitiate = (s.workers : Int))
+    (hp : ∀ e ∈ evs, (toEv e).isSome = true) (hsh : Shaped (evs.filterMap toEv))
+    (hc0 : s.cstep ≤ s.tsteps) (hr : drun (begin s disk0) (evs ++ [.finish]) = .ok d) :
+    nDone evs = s.tsteps - s.cstep ∧ d.y.jobs = [] ∧ d.y.s.cstep = s.tsteps ∧
+    (∃ im, d.disk = some im ∧ im.cstep = s.tsteps) ∧ d.writes = nDone evs + 1 ∧
+    d.stops = 1 ∧ d.phase = .stopped := by
+  obtain ⟨d1, hr1, hfin⟩ := drun_append_ok hr
+  simp only [drun] at hfin
+  cases h2 : dstep d1 .finish with
+  | error er => rw [h2] at hfin; simp at hfin
+  | ok d2 =>
+    rw [h2] at hfin
+    simp at hfin; subst hfin
+    obtain ⟨p1, p2⟩ := drun_proj evs hp hr1
+    have hI1 := dinv_run evs (dinv_begin s disk0 h0) hr1
+    have hI2 := dinv_step hI1 h2
+    simp only [Nat.zero_add, nDone, Nat.add_zero] at hI1 hI2
+    have h2' := h2
+    unfold dstep at h2'
+    split at h2'
+    · simp at h2'
+    · simp only at h2'
+      have lf := loop_fields d1.y.s
+      split at h2'
+      · simp at h2'
+      · rename_i hgo
+        simp at hgo
+        have hsame := (lf.2.2.2.2 hgo).2
+        simp at h2'; subst h2'
+        have hfresh : Fresh (begin s disk0).y := ⟨rfl, hf⟩
+        obtain ⟨f1, f2, f3⟩ := finished_run hfresh hsh p1 hc0 hgo
+        simp only [begin] at f1 f2
+        rw [p2] at f1
+        have hm := hI1.mem
+        have hwr := hI2.writes
+        have hst := hI2.stops
+        simp at hwr hst
+        refine ⟨f1, f3, by rw [hsame]; exact f2, ⟨persist (loop d1.y.s).1, rfl, ?_⟩, by simp [hwr], by simp [hst], rfl⟩
+        simp [persist, hsame, f2]
+
+-- non-vacuity (ensembles [0-] [0+], one worker, 3 steps, fresh directory; `Lemmas/SchedDiskEx.lean`):
+-- a unit fails after one completed move — memory says 2, the file says 1, stop() was not called
+example : ∃ d d', drun (begin SchedDiskEx.exFresh none) (SchedDiskEx.evsFail.take 3) = .ok d ∧
+    dstep d (.unitFails 0) = .ok d' ∧ d.phase = .running ∧ d.y.jobs.length = 1 ∧
+    d'.y.s.cstep = 2 ∧ d'.disk.map (·.cstep) = some 1 ∧ d'.stops = 0 := by
+  obtain ⟨d, h1, _, hj, _, _, _, hp, _⟩ := SchedDiskEx.okWith_ok SchedDiskEx.exBeforeFail
+  obtain ⟨d', h2, c1, _, c3, _, c5, _, _⟩ := SchedDiskEx.okWith_ok SchedDiskEx.exFail
+  have : SchedDiskEx.evsFail = SchedDiskEx.evsFail.take 3 ++ [.unitFails 0] := rfl
+  rw [this] at h2
+  obtain ⟨d1, e1, e2⟩ := drun_append_ok h2
+  rw [h1] at e1
+  have e1' : d1 = d := by injection e1 with e; exact e.symm
+  subst e1'
+  simp only [drun] at e2
+  cases h3 : dstep d1 (.unitFails 0) with
+  | error er => rw [h3] at e2; simp at e2
+  | ok dd => rw [h3] at e2; simp at e2; subst e2; exact ⟨d1, dd, h1, h3, hp, hj, c1, c3, c5⟩
+
+-- the hypotheses of `finished_file` (and of `disk_counts_completed_moves`) hold on a whole run of three moves
+example : (∀ im, (none : Option Image) = some im → im.cstep = SchedDiskEx.exFresh.cstep) ∧
+    SchedDiskEx.exFresh.toinitiate = (SchedDiskEx.exFresh.workers : Int) ∧
+    (∀ e ∈ SchedDiskEx.evsRun, (toEv e).isSome = true) ∧ Shaped (SchedDiskEx.evsRun.filterMap toEv) ∧
+    SchedDiskEx.exFresh.cstep ≤ SchedDiskEx.exFresh.tsteps ∧
+    (∃ d, drun (begin SchedDiskEx.exFresh none) (SchedDiskEx.evsRun ++ [.finish]) = .ok d) := by
+  obtain ⟨c1, c2, c3, c4⟩ := SchedDiskEx.exFresh_counters
+  obtain ⟨d, h, _⟩ := SchedDiskEx.okWith_ok SchedDiskEx.exFinished
+  refine ⟨fun im him => (by cases him), (by rw [c4, c3]; rfl), ?_, ?_, by omega, d, h⟩
+  · intro e he
+    simp [SchedDiskEx.evsRun] at he
+    rcases he with rfl | rfl | rfl | rfl <;> rfl
+  · exact ⟨[Ev.start { t := 1, e := 1 } 0],
+      [Ev.step 0 .acc [[1, 0]] { t := 0, e := 0 }, Ev.step 0 .rej [] { t := 1, e := 1 }, Ev.step 0 .rej [] { t := 1, e := 1 }],
+      rfl, by simp [isStart], by simp [isStep]⟩
+
+end SchedDisk
 
 /-! The runner half is proved in `Props/C17Runner.lean` (namespace `Infretis.C17Runner`):
     `exactly_once`, `fifo_order`, `no_result_lost`, `stop_clean`, … — audited together with this file. -/
